@@ -1,1 +1,328 @@
-//! placeholder
+//! Abstract build projects: steps, typed edges, pools, defaults, and the
+//! manifest text generated from them.
+
+use std::collections::{BTreeMap, BTreeSet};
+
+#[derive(Debug, Clone, Copy, PartialEq, Eq, Hash, PartialOrd, Ord)]
+pub enum EdgeKind {
+    Explicit,
+    Implicit,
+    OrderOnly,
+    Validation,
+}
+
+impl EdgeKind {
+    pub const ALL: [EdgeKind; 4] = [
+        EdgeKind::Explicit,
+        EdgeKind::Implicit,
+        EdgeKind::OrderOnly,
+        EdgeKind::Validation,
+    ];
+    pub fn ordering(self) -> bool {
+        !matches!(self, EdgeKind::Validation)
+    }
+    pub fn dirtying(self) -> bool {
+        matches!(self, EdgeKind::Explicit | EdgeKind::Implicit)
+    }
+}
+
+#[derive(Debug, Clone, PartialEq, Eq, Default)]
+pub struct Step {
+    pub outs: Vec<String>,
+    /// Outputs after the `|` (not part of $out).
+    pub implicit_outs: Vec<String>,
+    pub phony: bool,
+    pub pool: Option<String>,
+    pub ins: Vec<(EdgeKind, String)>,
+    /// Evaluated command line; unique per step, identifies the step to the
+    /// scripted executor.
+    pub cmdline: String,
+    pub depfile: Option<String>,
+    pub msvc: bool,
+    pub rspfile: Option<(String, String)>,
+    pub description: Option<String>,
+}
+
+impl Default for EdgeKind {
+    fn default() -> Self {
+        EdgeKind::Explicit
+    }
+}
+
+impl Step {
+    pub fn all_outs(&self) -> impl Iterator<Item = &String> {
+        self.outs.iter().chain(self.implicit_outs.iter())
+    }
+    pub fn ins_of(&self, pred: impl Fn(EdgeKind) -> bool) -> Vec<&String> {
+        // n2 stores inputs grouped by kind in the order explicit, implicit,
+        // order-only, validation.
+        let mut v = Vec::new();
+        for k in EdgeKind::ALL {
+            if pred(k) {
+                for (kk, f) in &self.ins {
+                    if *kk == k {
+                        v.push(f);
+                    }
+                }
+            }
+        }
+        v
+    }
+    pub fn dirtying_ins(&self) -> Vec<&String> {
+        self.ins_of(|k| k.dirtying())
+    }
+    pub fn ordering_ins(&self) -> Vec<&String> {
+        self.ins_of(|k| k.ordering())
+    }
+}
+
+#[derive(Debug, Clone, PartialEq, Eq, Default)]
+pub struct Project {
+    pub steps: Vec<Step>,
+    pub pools: Vec<(String, usize)>,
+    pub defaults: Vec<String>,
+    /// Extra text placed at the top of the manifest (bindings such as
+    /// builddir, comments).
+    pub preamble: String,
+}
+
+fn esc(path: &str) -> String {
+    let mut s = String::new();
+    for c in path.chars() {
+        match c {
+            ' ' => s.push_str("$ "),
+            ':' => s.push_str("$:"),
+            '$' => s.push_str("$$"),
+            c => s.push(c),
+        }
+    }
+    s
+}
+
+fn esc_val(v: &str) -> String {
+    v.replace('$', "$$")
+}
+
+impl Project {
+    pub fn manifest_text(&self) -> String {
+        let mut t = String::new();
+        t.push_str(&self.preamble);
+        for (name, depth) in &self.pools {
+            t.push_str(&format!("pool {}\n  depth = {}\n", name, depth));
+        }
+        for (i, s) in self.steps.iter().enumerate() {
+            let rule = if s.phony {
+                "phony".to_string()
+            } else {
+                let r = format!("r{}", i);
+                t.push_str(&format!("rule {}\n  command = {}\n", r, esc_val(&s.cmdline)));
+                if let Some(d) = &s.depfile {
+                    t.push_str(&format!("  depfile = {}\n", esc_val(d)));
+                }
+                if s.msvc {
+                    t.push_str("  deps = msvc\n");
+                }
+                if let Some((p, c)) = &s.rspfile {
+                    t.push_str(&format!("  rspfile = {}\n  rspfile_content = {}\n", esc_val(p), esc_val(c)));
+                }
+                if let Some(p) = &s.pool {
+                    t.push_str(&format!("  pool = {}\n", p));
+                }
+                if let Some(d) = &s.description {
+                    t.push_str(&format!("  description = {}\n", esc_val(d)));
+                }
+                r
+            };
+            t.push_str("build");
+            for o in &s.outs {
+                t.push(' ');
+                t.push_str(&esc(o));
+            }
+            if !s.implicit_outs.is_empty() {
+                t.push_str(" |");
+                for o in &s.implicit_outs {
+                    t.push(' ');
+                    t.push_str(&esc(o));
+                }
+            }
+            t.push_str(": ");
+            t.push_str(&rule);
+            for (k, sep) in [
+                (EdgeKind::Explicit, ""),
+                (EdgeKind::Implicit, " |"),
+                (EdgeKind::OrderOnly, " ||"),
+                (EdgeKind::Validation, " |@"),
+            ] {
+                let list: Vec<&String> = s.ins.iter().filter(|(kk, _)| *kk == k).map(|(_, f)| f).collect();
+                if list.is_empty() {
+                    continue;
+                }
+                t.push_str(sep);
+                for f in list {
+                    t.push(' ');
+                    t.push_str(&esc(f));
+                }
+            }
+            t.push('\n');
+        }
+        if !self.defaults.is_empty() {
+            t.push_str("default");
+            for d in &self.defaults {
+                t.push(' ');
+                t.push_str(&esc(d));
+            }
+            t.push('\n');
+        }
+        t
+    }
+
+    pub fn producer(&self, file: &str) -> Option<usize> {
+        self.steps
+            .iter()
+            .position(|s| s.all_outs().any(|o| o == file))
+    }
+
+    pub fn step_by_cmdline(&self, cmdline: &str) -> Option<usize> {
+        self.steps
+            .iter()
+            .position(|s| !s.phony && s.cmdline == cmdline)
+    }
+
+    /// Files that are inputs somewhere and produced nowhere.
+    pub fn sources(&self) -> Vec<String> {
+        let mut v: Vec<String> = Vec::new();
+        for s in &self.steps {
+            for (_, f) in &s.ins {
+                if self.producer(f).is_none() && !v.contains(f) {
+                    v.push(f.clone());
+                }
+            }
+        }
+        v
+    }
+
+    /// Direct predecessor steps through edges accepted by `pred`.
+    pub fn preds(&self, step: usize, pred: impl Fn(EdgeKind) -> bool) -> BTreeSet<usize> {
+        let mut out = BTreeSet::new();
+        for (k, f) in &self.steps[step].ins {
+            if pred(*k) {
+                if let Some(p) = self.producer(f) {
+                    out.insert(p);
+                }
+            }
+        }
+        out
+    }
+
+    /// Transitive ordering predecessors (explicit, implicit, order-only).
+    pub fn ord_pred(&self, step: usize) -> BTreeSet<usize> {
+        let mut seen = BTreeSet::new();
+        let mut stack = vec![step];
+        while let Some(s) = stack.pop() {
+            for p in self.preds(s, |k| k.ordering()) {
+                if seen.insert(p) {
+                    stack.push(p);
+                }
+            }
+        }
+        seen
+    }
+
+    /// Steps needed by the given files: closure over all four edge kinds.
+    pub fn closure(&self, files: &[String]) -> BTreeSet<usize> {
+        let mut seen = BTreeSet::new();
+        let mut stack: Vec<usize> = files.iter().filter_map(|f| self.producer(f)).collect();
+        for &s in &stack {
+            seen.insert(s);
+        }
+        while let Some(s) = stack.pop() {
+            for p in self.preds(s, |_| true) {
+                if seen.insert(p) {
+                    stack.push(p);
+                }
+            }
+        }
+        seen
+    }
+
+    /// The steps an invocation with these command-line targets considers:
+    /// targets, else defaults, else every output (minus `exclude`).
+    pub fn wanted(&self, targets: &[String], exclude: Option<&str>) -> BTreeSet<usize> {
+        if !targets.is_empty() {
+            return self.closure(targets);
+        }
+        if !self.defaults.is_empty() {
+            return self.closure(&self.defaults);
+        }
+        let mut all: Vec<String> = Vec::new();
+        for s in &self.steps {
+            for o in s.all_outs() {
+                if Some(o.as_str()) != exclude {
+                    all.push(o.clone());
+                }
+            }
+        }
+        self.closure(&all)
+    }
+
+    /// True if the ordering edges contain a cycle reachable from `from`.
+    pub fn ordering_cycle_from(&self, from: &BTreeSet<usize>) -> bool {
+        // DFS with colours over ordering edges only.
+        fn dfs(p: &Project, s: usize, colour: &mut BTreeMap<usize, u8>) -> bool {
+            match colour.get(&s) {
+                Some(1) => return true,
+                Some(2) => return false,
+                _ => {}
+            }
+            colour.insert(s, 1);
+            for q in p.preds(s, |k| k.ordering()) {
+                if dfs(p, q, colour) {
+                    return true;
+                }
+            }
+            colour.insert(s, 2);
+            false
+        }
+        // Validation edges extend reachability but do not close cycles.
+        let mut colour = BTreeMap::new();
+        for &s in from {
+            if dfs(self, s, &mut colour) {
+                return true;
+            }
+        }
+        false
+    }
+
+    /// Topological order of the given steps by ordering edges (assumes acyclic).
+    pub fn topo(&self, steps: &BTreeSet<usize>) -> Vec<usize> {
+        let mut out = Vec::new();
+        let mut done = BTreeSet::new();
+        fn visit(p: &Project, s: usize, steps: &BTreeSet<usize>, done: &mut BTreeSet<usize>, out: &mut Vec<usize>, depth: usize) {
+            if done.contains(&s) || depth > 64 {
+                return;
+            }
+            done.insert(s);
+            for q in p.preds(s, |k| k.ordering()) {
+                visit(p, q, steps, done, out, depth + 1);
+            }
+            if steps.contains(&s) {
+                out.push(s);
+            }
+        }
+        for &s in steps {
+            visit(self, s, steps, &mut done, &mut out, 0);
+        }
+        out
+    }
+
+    pub fn pool_depth(&self, name: &str) -> Option<usize> {
+        if let Some((_, d)) = self.pools.iter().rev().find(|(n, _)| n == name) {
+            return Some(*d);
+        }
+        match name {
+            "console" => Some(1),
+            "" => Some(0),
+            _ => None,
+        }
+    }
+}
